@@ -17,7 +17,8 @@ HARNESSES = ()
 LEVEL = "proof"
 THEOREMS = ["C10_invalid_disconnects_sender_only", "C10_invalid_sender_gone_others_untouched", "C10_nothing_after_corruption",
             "C10_invalid_bytes_invisible", "C10_isolation_bytes", "C10_valid_prefix", "C10_isolation", "C10_preauth_silent", "C10_incomplete_bounded",
-            "C10_accept_gate", "C10_setup_assertion_holds", "C10_env_run_is_run", "C10_loader_nothing_after_corruption"]
+            "C10_accept_gate", "C10_setup_assertion_holds", "C10_env_run_is_run", "C10_loader_nothing_after_corruption",
+            "C10_close_cleans_up", "C10_no_error_to_departed"]
 
 NWORKERS = min(6, max(2, (os.cpu_count() or 4) // 2))
 
@@ -71,12 +72,25 @@ def worker(args):
             res = None
             for attempt in range(attempts):
                 try:
+                    if s.get("fresh") and bus is not None:
+                        # this script wants a daemon of its own (predictable unique names; its health is judged on its own)
+                        alive, rc, bad, err = bus.stop()
+                        daemons.append({"alive": alive, "rc": rc, "san": bad[:20], "tail": err[-1500:] if (bad or not alive or rc != 0) else "", "after": None})
+                        bus = None
                     if bus is None:
                         bus = rr.Bus(exe, cfg)
-                    res = rr.run_script(bus, parse_events(s["events"]), rr.parse_groups(line), [bytes.fromhex(c) for c in s["canaries"]], s.get("blast"), tuple(s.get("noread", ())))
+                    res = rr.run_script(bus, parse_events(s["events"]), rr.parse_groups(line), [bytes.fromhex(c) for c in s["canaries"]], s.get("blast"), tuple(s.get("noread", ())), bool(s.get("fresh")))
                 except Exception:
                     res = {"problems": [("violation", "executor exception (bus unusable?): " + " / ".join(traceback.format_exc().strip().split("\n")[-3:])[-400:])], "observed": [], "stats": {}}
                 res["attempts"] = attempt + 1
+                if s.get("fresh") and bus is not None and not res["problems"]:
+                    # (a) after the close(s): the daemon must still be there, exit cleanly and have nothing in its sanitizer/assert log
+                    alive, rc, bad, err = bus.stop()
+                    bus = None
+                    daemons.append({"alive": alive, "rc": rc, "san": bad[:20], "tail": err[-1500:] if (bad or not alive or rc != 0) else "", "after": idx, "reported": True})
+                    if bad or not alive or rc not in (0, None):
+                        res["problems"].append(("violation", "dbus-daemon %s (exit status %s) after this script: %s" % (
+                            "DIED" if (not alive or rc not in (0, None)) else "complained", rc, " | ".join(bad[:4]) or err[-300:])))
                 if res["problems"]:
                     if bus is not None:
                         try:
@@ -122,7 +136,8 @@ def run(ctx):
                 if f.endswith(".json"):
                     scripts += json.load(open(os.path.join(cdir, f)))
         n_plain, n_flood, n_timed, n_blast = (1800, 16, 18, 10) if tier == "quick" else (16000, 160, 220, 80)
-        gen = rg.generate(rnd, n_plain, n_flood, n_timed, n_blast)
+        n_close = 60 if tier == "quick" else 1500
+        gen = rg.generate(rnd, n_plain, n_flood, n_timed, n_blast, n_close)
         if tier != "quick":
             big = rg.gen_quota(rnd, n=34000, cfg=rg.CFG_MAIN)      # the same with the DEFAULT max_outgoing_bytes (127 MiB)
             big["kind"] = "quota:default-limit"
@@ -217,6 +232,9 @@ def run(ctx):
                 "(non-NUL first byte, 2047..40000-byte lines, 5-9 rejected attempts, commands out of order, binary garbage, messages before BEGIN); unregistered clients "
                 "(traffic before Hello, malformed/repeated Hello, no-destination messages); floods of 300-1500 messages never read back; messages of max_message_size-9..+1000; "
                 "5-9 simultaneous unauthenticated connections against max_incomplete_connections=4; auth_timeout=1000 ms expiry with waiting connections; "
+                "abrupt close (plain / invalid stream / monitor that sends) with outstanding state — pending calls to itself by unique and by owned name, answered or flagged no-reply, "
+                "to and from others, names owned with others queued and the reverse, match rules, being a monitor, a half-written message, an unread queue — each on a daemon of "
+                "its own (unique names predictable: NameOwnerChanged and NoReply compared with the model, daemon exit status and sanitizer log judged per script); "
                 "hand-written boundary scenarios. non-trivial = the model disconnects somebody or dispatches more than one hostile message",
         "samples": [{"kind": scripts[i]["kind"], "events": [e[:60] for e in scripts[i]["events"][:8]], "model": model[i][:160]} for i in range(0, len(scripts), max(1, len(scripts) // 8))][:8],
         "input_distribution": dict(dist, **{"hostile_messages_dispatched": stats["seen"], "disconnects_by_bus": stats["gone"], "registrations": stats["hi"],
@@ -231,7 +249,7 @@ def run(ctx):
         "explanation": "PROVED (Coq, all histories/schedules, on the model): a connection whose stream is found invalid is dropped and nothing but the effects of its valid "
                        "message prefix and of its disconnection reaches the bus core or any other connection (C10_invalid_disconnects_sender_only, C10_nothing_after_corruption, "
                        "C10_isolation_bytes [byte level: = the history in which the offender sent its valid message prefix and disconnected; unconditional, via Proofs/LoadLocal.v] and C10_isolation [message level: refinement to the ideal bus], C10_preauth_silent); incomplete connections never exceed "
-                       "max_incomplete_connections and never outlive auth_timeout (C10_incomplete_bounded), the setup assertion cannot fail. "
+                       "max_incomplete_connections and never outlive auth_timeout (C10_incomplete_bounded), the setup assertion cannot fail; after a disconnect no pending-reply entry mentions the connection and no NoReply is addressed to it (C10_close_cleans_up, C10_no_error_to_departed, on the extracted core). "
                        "EXPLORED ONLY (harness, this run): absence of crashes / sanitizer reports / assertion failures / spinning in the C daemon, bounded latency of bystander "
                        "round trips, EOF at the offender, no canary of an undispatched message at any bystander; and daemon = model on every script (monitor trace, handshake bytes, EOF).",
     })
